@@ -461,7 +461,7 @@ def main(argv):
     src = Path(argv[1])
     outp = Path(argv[2])
     out = ["(* GENERATED by translator/gen.py from the working tree -- do not edit *)",
-           "From Curies.model Require Import Str Regex.", ""]
+           "From Curies.model Require Import Str Regex PyFrag.", ""]
     failed = {}
     for name, fn in SECTIONS:
         part: list[str] = []
@@ -474,6 +474,17 @@ def main(argv):
         except (SyntaxError, OSError, KeyError, IndexError, AttributeError, TypeError, ValueError) as e:
             failed[name] = f"{type(e).__name__}: {e}"
             out.append(f"(* section {name}: NOT TRANSLATED *)")
+    # the bodies of the query methods, as terms of model/PyFrag.v: every function fails on its own
+    try:
+        sys.path.insert(0, str(Path(__file__).resolve().parent))
+        import frag
+
+        part = []
+        failed.update(frag.gen_frag(src, part))
+        out += part
+    except (SyntaxError, OSError, KeyError, IndexError, AttributeError, TypeError, ValueError) as e:
+        failed["frag"] = f"{type(e).__name__}: {e}"
+        out.append("(* section frag: NOT TRANSLATED *)")
     text = "\n".join(out) + "\n"
     if not outp.exists() or outp.read_text() != text:
         outp.parent.mkdir(parents=True, exist_ok=True)
